@@ -151,12 +151,9 @@ func takeAsyncPanic() *panicInfo {
 
 // drain runs every gated task to completion on the calling goroutine (tasks may queue more).
 func drain() int {
-	n := 0
-	for len(vtask.Pending()) > 0 {
-		vtask.Run(0)
-		n++
-	}
-	return n
+	// not vtask.Pending() in a loop: it copies the whole queue, which would show up in the case's
+	// allocation count (quadratic in the number of queued tasks)
+	return vtask.RunAll()
 }
 
 // ---------------------------------------------------------------------------------------------
@@ -171,7 +168,21 @@ func totalAlloc() uint64 {
 
 const allocSlack = 2*maxFrame + 1<<20
 
+// perItem: what every further item of a flood (message, or block / confirm / transaction / node
+// string inside one message) may cost on top of 64 bytes per byte: bookkeeping and answers that are
+// bounded by the protocol's own constants (100 nodes per discovery answer, 10 blocks per packet, the
+// 10240 entries of the orphan cache). Growth without bound still exceeds it at the sizes explored.
+const perItem = 128 << 10
+
 func allocBound(input int) uint64 { return 64*uint64(input) + allocSlack }
+
+func allocBoundItems(input, items int) uint64 {
+	b := allocBound(input)
+	if items > 1 {
+		b += uint64(items-1) * perItem
+	}
+	return b
+}
 
 // ---------------------------------------------------------------------------------------------
 // cases and outcomes
@@ -187,6 +198,7 @@ type meter struct {
 	a0, a1 uint64
 	began  bool
 	input  int
+	items  int           // items of a flood (default 1), see perItem
 	stop   chan struct{} // closed when the watchdog gives up on the case
 	notes  []string
 	tags   []string
@@ -196,6 +208,9 @@ func (m *meter) begin() { m.a0 = totalAlloc(); m.began = true }
 func (m *meter) end(input int) {
 	m.a1 = totalAlloc()
 	m.input = input
+	if m.items < 1 {
+		m.items = 1
+	}
 }
 func (m *meter) tag(s string) { m.tags = append(m.tags, s) }
 
@@ -203,6 +218,7 @@ type caseResult struct {
 	Name    string
 	Outcome string
 	Input   int
+	Items   int
 	Alloc   uint64
 	Panic   *panicInfo
 	Stuck   string // non-empty: the case did not finish; the stack of the case goroutine
@@ -266,7 +282,7 @@ func blockedAt(trace string) string {
 			repo = append(repo, shortFunc(fn))
 		}
 	}
-	prim = strings.NewReplacer("(*", "", ")", "").Replace(prim)
+	prim = strings.NewReplacer("(*", "", ")", "", "lockSlow", "Lock").Replace(prim)
 	return prim + " in " + strings.Join(repo, " <- ")
 }
 
@@ -376,6 +392,7 @@ loop:
 		res.Alloc = m.a1 - m.a0
 	}
 	res.Input = m.input
+	res.Items = m.items
 	if res.Panic != nil {
 		res.Outcome = "PANIC:" + res.Panic.Func
 	} else if len(m.tags) > 0 {
@@ -600,12 +617,12 @@ func runChunk(f *Family, cmd command) *reply {
 			vtask.Reset()
 			E.rebuildAfterPanic()
 			rep.Restores["node-rebuilt-after-abort:"+f.Name]++
-		} else if r.Alloc > allocBound(r.Input) {
+		} else if r.Alloc > allocBoundItems(r.Input, r.Items) {
 			key += "/ALLOC"
-			rep.Violations = appendV(rep.Violations, violation{FP: fmt.Sprintf("C15/alloc/%s", f.Name), What: fmt.Sprintf("case %s: %d bytes received, %d bytes allocated (bound %d)", c.Name, r.Input, r.Alloc, allocBound(r.Input)), Case: c.Name, Fam: f.Name, Kind: "alloc", Detail: map[string]interface{}{"input": r.Input, "alloc": r.Alloc}})
+			rep.Violations = appendV(rep.Violations, violation{FP: fmt.Sprintf("C15/alloc/%s", f.Name), What: fmt.Sprintf("case %s: %d bytes received in %d item(s), %d bytes allocated (bound %d)", c.Name, r.Input, r.Items, r.Alloc, allocBoundItems(r.Input, r.Items)), Case: c.Name, Fam: f.Name, Kind: "alloc", Detail: map[string]interface{}{"input": r.Input, "alloc": r.Alloc}})
 		}
 		rep.Outcomes[key]++
-		if r.Alloc > rep.MaxAlloc && r.Alloc <= allocBound(r.Input) {
+		if r.Alloc > rep.MaxAlloc && r.Alloc <= allocBoundItems(r.Input, r.Items) {
 			rep.MaxAlloc = r.Alloc
 		}
 		if r.CPUus > 5000000 {
